@@ -98,18 +98,20 @@ func registerResolver() {
 		CVQuick:  3, CVThor: 6,
 	})
 
+	c06quick := []Shard{world("HarnessC06", 109, 0, 0, 0, 1, 0), sh("HarnessShapes", "parameter struct with an unexported embedded type (Call and Redefine)", 0, 3), sh("HarnessShapes", "target with a result of a concrete error type, redefined over a symbolically failing converter", 0, 4),
+		world("HarnessC06", 1, 1, 2, 0, 0, 0), world("HarnessC06", 2, 2, 1, 0, 1, 0), world("HarnessC06", 3, 1, 1, 0, 9, 0), world("HarnessC06", 0, 1, 1, 11, 9, 0), world("HarnessC06", 1, 1, 1, 11, 1, 0), world("HarnessC06", 2, 1, 1, 11, 3, 1), world("HarnessC06", 5, 1, 1, 2121, 1, 0), world("HarnessC06", 5, 1, 1, 2111, 0, 0, 2), world("HarnessC06", 6, 1, 1, 12, 1, 0, 4), world("HarnessC06", 100, 0, 0, 0, 1, 0), world("HarnessC06", 101, 0, 0, 0, 9, 0, 2), world("HarnessC06", 102, 0, 0, 0, 1, 0), world("HarnessC06", 103, 0, 0, 0, 1, 0), world("HarnessC06", 104, 0, 0, 0, 0, 0), world("HarnessC06", 106, 0, 0, 0, 1, 0), world("HarnessC06", 1, 1, 1, 91, 1, 0), world("HarnessC06", 108, 0, 0, 0, 1, 0), world("HarnessC06", 4, 1, 1, 11, 1, 0),
+		sh("HarnessC06Pos", "positional target func(T,T)", 0, 0), sh("HarnessC06Pos", "positional target func(T,T,U)", 0, 1),
+		sh("HarnessC06Pos", "positional converter func(T,T) U", 0, 2), sh("HarnessC06Pos", "positional func(T,T) (T,T)", 0, 3),
+		sh("HarnessC06Malformed", "nil option", 0, 0), sh("HarnessC06Malformed", "nil values", 0, 1), sh("HarnessC06Malformed", "Converter(42)", 0, 2),
+		sh("HarnessC06Malformed", "Converter(nil)", 0, 3), sh("HarnessC06Malformed", "ConverterFunc(nil)", 0, 4), sh("HarnessC06Malformed", "generator returning an error (Call)", 0, 5),
+		sh("HarnessC06Malformed", "NewFunc(nil)", 0, 6), sh("HarnessC06Malformed", "NewFunc(42)", 0, 7), sh("HarnessC06Malformed", "nil option through Redefine/Convert", 0, 8),
+		sh("HarnessC06Malformed", "generator returning nil", 0, 9), sh("HarnessC06Malformed", "generator returning an error (Redefine)", 0, 10), sh("HarnessC06Malformed", "BuildFunc(nil,nil)", 0, 11),
+		sh("HarnessC06Gen", "F-type: generator producing a converter, 1 supplied value", 0, 0, 1, 0), sh("HarnessC06Gen", "F-name: generator producing a converter, 2 supplied values", 0, 1, 2, 0),
+	}
 	register(&PropSpec{
 		ID: "C06", Pkg: "argmapper",
-		Quick: []Shard{sh("HarnessShapes", "parameter struct with an unexported embedded type (Call and Redefine)", 0, 3), sh("HarnessShapes", "target with a result of a concrete error type, redefined over a symbolically failing converter", 0, 4),
-			world("HarnessC06", 1, 1, 2, 0, 0, 0), world("HarnessC06", 2, 2, 1, 0, 1, 0), world("HarnessC06", 3, 1, 1, 0, 9, 0), world("HarnessC06", 0, 1, 1, 11, 9, 0), world("HarnessC06", 1, 1, 1, 11, 1, 0), world("HarnessC06", 2, 1, 1, 11, 3, 1), world("HarnessC06", 5, 1, 1, 2121, 1, 0), world("HarnessC06", 5, 1, 1, 2111, 0, 0, 2), world("HarnessC06", 6, 1, 1, 12, 1, 0, 4), world("HarnessC06", 100, 0, 0, 0, 1, 0), world("HarnessC06", 101, 0, 0, 0, 9, 0, 2), world("HarnessC06", 102, 0, 0, 0, 1, 0), world("HarnessC06", 103, 0, 0, 0, 1, 0), world("HarnessC06", 104, 0, 0, 0, 0, 0), world("HarnessC06", 106, 0, 0, 0, 1, 0), world("HarnessC06", 1, 1, 1, 91, 1, 0), world("HarnessC06", 108, 0, 0, 0, 1, 0), world("HarnessC06", 4, 1, 1, 11, 1, 0),
-			sh("HarnessC06Pos", "positional target func(T,T)", 0, 0), sh("HarnessC06Pos", "positional target func(T,T,U)", 0, 1),
-			sh("HarnessC06Pos", "positional converter func(T,T) U", 0, 2), sh("HarnessC06Pos", "positional func(T,T) (T,T)", 0, 3),
-			sh("HarnessC06Malformed", "nil option", 0, 0), sh("HarnessC06Malformed", "nil values", 0, 1), sh("HarnessC06Malformed", "Converter(42)", 0, 2),
-			sh("HarnessC06Malformed", "Converter(nil)", 0, 3), sh("HarnessC06Malformed", "ConverterFunc(nil)", 0, 4), sh("HarnessC06Malformed", "generator returning an error (Call)", 0, 5),
-			sh("HarnessC06Malformed", "NewFunc(nil)", 0, 6), sh("HarnessC06Malformed", "NewFunc(42)", 0, 7), sh("HarnessC06Malformed", "nil option through Redefine/Convert", 0, 8),
-			sh("HarnessC06Malformed", "generator returning nil", 0, 9), sh("HarnessC06Malformed", "generator returning an error (Redefine)", 0, 10), sh("HarnessC06Malformed", "BuildFunc(nil,nil)", 0, 11),
-			sh("HarnessC06Gen", "F-type: generator producing a converter, 1 supplied value", 0, 0, 1, 0), sh("HarnessC06Gen", "F-name: generator producing a converter, 2 supplied values", 0, 1, 2, 0),
-		},
+		Quick:    c06quick,
+		Thorough: append([]Shard{world("HarnessC06", 109, 0, 0, 0, 9, 0), world("HarnessC06", 0, 2, 1, 1111, 1, 0), world("HarnessC06", 4, 1, 1, 1111, 1, 0), world("HarnessC06", 5, 1, 1, 211111, 0, 0), world("HarnessC06", 101, 0, 0, 0, 9, 0, 2), world("HarnessC06", 104, 0, 0, 0, 9, 0, 2), world("HarnessC06", 108, 0, 0, 0, 9, 0)}, c06quick...),
 		Covers:   []string{"C06.shapes-checked", "C06.call-returned", "C06.redefine-returned", "C06.convert-returned", "C06.positional-checked", "C06.malformed-checked", "C06.generator-checked"},
 		Bounds:   []string{"template worlds as C01 (Call, then Redefine, then Convert on the same options)", "positional signatures repeating a type (4 shapes)", "12 malformed-option scenarios", "converter generators producing one converter", "call depth 400 / 4e6 SSA instructions per path = divergence"},
 		Outside:  []string{"as C01", "variadic functions", "non-termination that needs more than 400 nested frames to distinguish from deep recursion"},
